@@ -1,13 +1,105 @@
-(* C03 - the model mirrors the source text, independent of formatting.  Statements only. *)
+(* C03 - the model mirrors the source text, independent of formatting.  Statements only.
+   Machine: Builder/Lines.v; declarative content of a text: Builder/Spec.v.  All theorems hold for every payload type,
+   every dependency reader and print handler. *)
 From Coq Require Import ZArith List Bool.
-From PV Require Import Builder.Lines Builder.Basics.
+From PV Require Import Builder.Lines Builder.Basics Builder.Spec Builder.Mirror Builder.Blank Builder.Extra Builder.Render Builder.RenderProofs.
 Import ListNotations.
 Open Scope Z_scope.
 
+Section S.
+Variables T V D W : Type.
+Variable read_dep : D -> W -> W * option eloc.
+Variable emit : Z -> text -> W -> W.
+Notation line := (line T V D).
+Notation run := (run T V D W read_dep emit).
+
+(* whenever a text is accepted, the returned model is the declaratively defined content of the text:
+   - fields/paddings and constants are the attribute statements of the section in source order (attrs_of), each with the
+     doc that doc_of assigns: the comment on its own line and the comment lines that follow up to the next statement or
+     empty line;
+   - the header doc is made of the comment lines in front of the first statement / empty line of the section (for the
+     response: starting with the comment on the marker line);
+   - union / extent-or-sealed / deprecated are exactly the directives of the section (exactly one mode directive);
+   - the text is a service iff it has a marker line, the sections are the lines before and after the first marker, and
+     there is no second one *)
+Theorem C03_mirror : forall (ls : list line) (w : W) (m : model T V) (w' : W), run ls w = Ok (m, w') ->
+  m_deprecated T V m = has_dir T V D KDeprecated ls
+  /\ match split_marker T V D ls with
+     | (rq, None) => mirrors T V D (lead T V D rq) rq (m_req T V m) /\ m_resp T V m = None
+     | (rq, Some (ml, rs)) => mirrors T V D (lead T V D rq) rq (m_req T V m)
+                              /\ exists k, m_resp T V m = Some k /\ mirrors T V D (own T V D ml ++ lead T V D rs) rs k
+                                           /\ no_marker T V D rs
+     end.
+Proof. exact (mirror T V D W read_dep emit). Qed.
+
+(* "each exactly once, in source order": the attributes of a mirrored section, docs dropped, are the attribute statements *)
+Theorem C03_mirror_once : forall hdr (ls : list line) (k : sect T V), mirrors T V D hdr ls k ->
+  map fst (k_fields T V k) = filter (fieldlike T V) (stmt_attrs T V D ls)
+  /\ map fst (k_consts T V k) = filter (fun a => negb (fieldlike T V a)) (stmt_attrs T V D ls).
+Proof. exact (mirrors_once T V D). Qed.
+
 (* every way the text can end: a final line feed (an additional empty last line) changes neither the model nor the
-   world nor an error, for every line list, all payloads, all dependency readers and print handlers *)
-Theorem C03_final_newline : forall (T V D W : Type) (read_dep : D -> W -> W * option eloc) (emit : Z -> text -> W -> W)
-  (ls : list (line T V D)) (w : W), ls <> [] ->
-  run T V D W read_dep emit (ls ++ [empty_line]) w = run T V D W read_dep emit ls w.
-Proof. exact final_newline. Qed.
+   world nor an error *)
+Theorem C03_final_newline : forall (ls : list line) (w : W), ls <> [] -> run (ls ++ [empty_line]) w = run ls w.
+Proof. exact (final_newline T V D W read_dep emit). Qed.
+
+(* a blanks-only line inserted anywhere (also as the last line) changes neither acceptance nor the model nor the world,
+   provided the world does not record the line numbers passed to the print handler (they do shift) *)
+Theorem C03_blank_lines : (forall n n' t w, emit n t w = emit n' t w) ->
+  forall (p r : list line) (w : W), p ++ r <> [] ->
+  outcome T V W (run (p ++ blank_line T V D :: r) w) = outcome T V W (run (p ++ r) w).
+Proof. exact (blank_lines T V D W read_dep emit). Qed.
+
+(* texts with the same statements (extra comments, extra empty lines, comments moved, ...) yield models that differ in
+   docs only.  Partial: both texts are assumed to be accepted; that extra comment/empty lines cannot change acceptance
+   is not proved (it holds for the statements of the grammar, decided by the correspondence check) *)
+Theorem C03_extra_lines_partial : forall (p : list line) (x : line) (r : list line) (w : W) m1 m2 w1 w2,
+  l_stmt T V D x = None -> run (p ++ x :: r) w = Ok (m1, w1) -> run (p ++ r) w = Ok (m2, w2) ->
+  undoc T V m1 = undoc T V m2.
+Proof. exact (extra_lines T V D W read_dep emit). Qed.
+
+Theorem C03_same_statements_partial : forall (ls1 ls2 : list line) (w1 w2 : W) m1 m2 w1' w2',
+  sk T V D ls1 = sk T V D ls2 -> run ls1 w1 = Ok (m1, w1') -> run ls2 w2 = Ok (m2, w2') -> undoc T V m1 = undoc T V m2.
+Proof. exact (same_statements T V D W read_dep emit). Qed.
+
+(* rendering a model back to canonical DSDL (header comments, @deprecated, @union, every attribute with its doc as the
+   comment on its line and on the following lines, @sealed / @extent, --- and the response likewise) and reading that
+   again yields the same model - for every model the machine can produce (wf_model: fields are fields, constants are
+   constants, no doc starts with a line feed, unions have two variants) *)
+Theorem C03_render : forall (m : model T V) (w : W), wf_model T V m -> exists w', run (render T V D m) w = Ok (m, w').
+Proof. exact (render_reads_back T V D W read_dep emit). Qed.
+
+End S.
+Print Assumptions C03_render.
+Print Assumptions C03_mirror.
+Print Assumptions C03_mirror_once.
 Print Assumptions C03_final_newline.
+Print Assumptions C03_blank_lines.
+Print Assumptions C03_extra_lines_partial.
+Print Assumptions C03_same_statements_partial.
+
+(* non-vacuity: a service definition with header docs, a field whose doc continues on a comment line, a padding, a
+   constant, a union response, and no final line feed ("# h / @deprecated / uint8 a # d / # d2 / void3 / X = 5 / @extent 64 /
+   --- # rh / @union / a / b / @sealed"): the machine accepts it, the hypotheses of C03_mirror and C03_render are met *)
+Definition ex_lines : list (line unit Z unit) :=
+  [ Line None false (Some [32; 104]) 0;
+    Line (Some (Stmt [PIdent] (XDir KDeprecated GNone []))) false None 0;
+    Line (Some (Stmt [PIdent] (XAttr (AField tt [97]) false))) false (Some [32; 100]) 0;
+    Line None false (Some [32; 100; 50]) 0;
+    Line (Some (Stmt [] (XAttr (APad tt) false))) false None 0;
+    Line None true None 0;
+    Line (Some (Stmt [PIdent] (XAttr (AConst tt [88] 5) false))) false None 0;
+    Line (Some (Stmt [PIdent] (XDir KExtent (GInt 64) []))) false None 0;
+    Line (Some (Stmt [] XMarker)) false (Some [32; 114; 104]) 0;
+    Line (Some (Stmt [PIdent] (XDir KUnion GNone []))) false None 0;
+    Line (Some (Stmt [PIdent] (XAttr (AField tt [97]) false))) false None 0;
+    Line (Some (Stmt [PIdent] (XAttr (AField tt [98]) false))) false None 0;
+    Line (Some (Stmt [PIdent] (XDir KSealed GNone []))) false None 0 ].
+Definition ex_model : model unit Z :=
+  Model unit Z true
+    (Sect unit Z false (Some 64) [104] [(AField tt [97], [100; 10; 100; 50]); (APad tt, [])] [(AConst tt [88] 5, [])])
+    (Some (Sect unit Z true None [114; 104] [(AField tt [97], []); (AField tt [98], [])] [])).
+Example C03_nonvacuous :
+  run unit Z unit unit (fun _ w => (w, None)) (fun _ _ w => w) ex_lines tt = Ok (ex_model, tt)
+  /\ run unit Z unit unit (fun _ w => (w, None)) (fun _ _ w => w) (render unit Z unit ex_model) tt = Ok (ex_model, tt).
+Proof. split; vm_compute; reflexivity. Qed.
